@@ -113,6 +113,7 @@ def r1_promote_before_store(ctx):
                 check_sink(ctx, fn, "array-push", c.block, c.args[1], what="into a script array")
                 n += 1
     ctx.floor("store/escape sinks", n, 10)
+    host_value_storage(ctx)
 
 
 def param_binding(ctx, fn, block, operand):
@@ -176,6 +177,58 @@ def param_binding_rule(ctx):
                 param_binding(ctx, fn, b, rv["ops"][2])
                 n += 1
     ctx.floor("parameter slots built in eval_function_call", n, 1)
+
+
+def host_value_storage(ctx):
+    """Text handed to a process command (argument, environment entry, working directory, stdin text, program) is stored in the
+    command, which lives on the persistent arena for as long as the script keeps it: the text has to be allocated there too,
+    not on the frame arena that is rewound at the end of the loop iteration / call in which the command was configured."""
+    n = 0
+
+    def persistent(fn, operand, depth=0):
+        t = sh(ne(fn.deep(operand)))
+        m = re.match(r"^&?(?:branch\()?(\w+)\((.*)$", t)
+        if re.match(r"^&?(to_string|from_str|from_str_in|with_capacity_in|new_in)\(&?self\.arena\b", t) or t in ("self.arena", "&self.arena"):
+            return True, t
+        if "self.frame" in t.split(",")[0]:
+            return False, "allocated on the frame arena (%s)" % t[:50]
+        if m and depth < 2:
+            callee = [c for c in fn.calls() if (c.callee or "").split("::")[-1] == m.group(1) and (c.callee or "").startswith("runtime::Runtime::")]
+            if callee:
+                g = ctx.lib.fns.get(callee[0].callee)
+                if g is not None:
+                    oks = []
+                    for b in sorted(g.live):
+                        for st in g.blocks[b]["s"]:
+                            rv = st["rv"]
+                            if st["lhs"]["l"] == 0 and not st["lhs"]["p"] and rv["k"] == "agg" and rv.get("variant") == "Ok":
+                                oks.append(persistent(g, rv["ops"][0], depth + 1))
+                    if oks:
+                        bad = [w for ok, w in oks if not ok]
+                        return (not bad, bad[0] if bad else "through %s" % m.group(1))
+        return False, "storage of `%s` not recognised" % t[:50]
+    for fn in runtime_bodies(ctx):
+        for c in fn.calls():
+            cal = c.callee or ""
+            if not cal.startswith("process::ProcessCommand::") or len(c.args) < 2:
+                continue
+            short = cal.split("::")[-1]
+            if short == "new":
+                continue    # a fresh command is a temporary on the frame; it becomes persistent through HostHandle::promote (R5)
+            for k, a in enumerate(c.args[1:]):
+                pl = (a.get("move") or a.get("copy")) if isinstance(a, dict) else None
+                ty = fn.locals[pl["l"]]["ty"] if pl is not None and not pl["p"] else ""
+                if "ArenaString" not in ty:
+                    continue
+                n += 1
+                ctx.touch(fn)
+                ok, why = persistent(fn, a)
+                key = "host-store|%s|%s#%d" % (parent_fn(fn.id).split("::")[-1], short, k + 1)
+                if ok:
+                    ctx.ok(key, fn.where(c.block), "allocated on the persistent arena")
+                else:
+                    ctx.bad(key, fn.where(c.block), "the text stored by %s is %s: the command outlives the loop iteration / call in which it is configured, the frame arena is rewound there, and the child later receives whatever was allocated over it" % (short, why))
+    ctx.floor("texts stored into process commands", n, 4)
 
 
 def r2_copy_before_free(ctx):
